@@ -367,10 +367,22 @@ def run(repo: Repo, rep: Report, tier: str) -> None:
                   or (isinstance(n, ast.Call) and call_name(n) in ("pop", "clear") and isinstance(n.func, ast.Attribute) and norm(n.func.value) == "self.memory_types")
                   or (isinstance(n, ast.Delete) and any("self.memory_types[" in norm(t) for t in n.targets))]
     scoped_key = all(not isinstance(n.targets[0].slice, ast.Attribute) or "scope" in norm(n.targets[0].slice) for _, n in stores14) and any("scope" in norm(n.targets[0].slice) for _, n in stores14)
-    ok14 = bool(restores14) or scoped_key
+    # third way: the table stays flat, but whoever reads an entry to decide a cell's type (the analyzer's write check, the lowering of the declaration) first checks
+    # that the entry belongs to the memory at hand (`<entry>.symbol is <the resolved symbol>` / `<entry>.symbol.defined_at is <this declaration>`) and drops it otherwise
+    readers14 = [(m, n) for m in list(an14.methods.values()) + [repo.func("MemoryLowerer.lower_mem_decl")] for n in walk_local(m.node)
+                 if isinstance(n, ast.Assign) and isinstance(n.targets[0], ast.Name) and isinstance(n.value, ast.Call) and call_name(n.value) == "get" and "memory_types" in norm(n.value.func)]
+    def _validated14(m, n) -> bool:
+        x = n.targets[0].id
+        for iff in [q for q in walk_local(m.node) if isinstance(q, ast.If) and q.lineno > n.lineno]:
+            t = norm(iff.test)
+            if f"{x}.symbol" in t and " is not " in t and any(isinstance(b, ast.Assign) and norm(b.targets[0]) == x and norm(b.value) == "None" for b in iff.body):
+                return True
+        return False
+    validated14 = len(readers14) >= 2 and all(_validated14(m, n) for m, n in readers14)
+    ok14 = bool(restores14) or scoped_key or validated14
     m14, n14 = stores14[0]
     rep.check(ok14, "C15-R14", "SemanticAnalyzer.memory_types distinguishes a callee's memory from the caller's memory of the same name",
-              "restored on scope exit / keyed by scope" if ok14 else
+              ("every deciding reader checks that the entry is the memory at hand" if validated14 else "restored on scope exit / keyed by scope") if ok14 else
               f"`{norm(n14)[:60]}` is keyed by the bare name and never restored: after `func f() {{ Memory c: \"signal-B\"; ... }}` the caller's `Memory c: \"signal-A\"` is created on signal-B", m14.loc(n14))
 
     # ---------------- R15 --------------------------------------------------------------
